@@ -37,20 +37,22 @@ static std::string dump_g(const GVal &g) {
 
 static const char *SHAPE_NAME[10] = {"{y,m}", "{m,y}", "{y,m,z:7}", "{m,z:\"s\",y}", "{z:[1],y,m}", "{r(removed),m,y}",
                                      "{y,m,r(removed)}", "{y,r(reset),m}", "{m(removed),y}", "{y}"};
+// member names: "ky" is the grouping key; "zy" and "ry" have the same full hash as "ky" (the hash leaves out the first unit of
+// longer names), so only the text tells them apart
 // builds element `idx` with shape s and grouping value g; appends the expected members (without the key) to `exp`
 static void build(V &obj, int s, const GVal &g, unsigned idx, std::string &exp) {
     auto M = [&](V &o) { o["m"] = SizeT64(idx); };
-    auto Y = [&](V &o) { set_g(o["y"], g); };
+    auto Y = [&](V &o) { set_g(o["ky"], g); };
     const std::string m = "\"m\":u" + std::to_string(idx);
     switch (s) {
         case 0: Y(obj); M(obj); exp = "{" + m + "}"; break;
         case 1: M(obj); Y(obj); exp = "{" + m + "}"; break;
-        case 2: Y(obj); M(obj); obj["z"] = SizeT64{7}; exp = "{" + m + ",\"z\":u7}"; break;
-        case 3: M(obj); obj["z"] = "s"; Y(obj); exp = "{" + m + ",\"z\":\"s\"}"; break;
-        case 4: obj["z"][0] = SizeT64{1}; Y(obj); M(obj); exp = "{\"z\":[u1]," + m + "}"; break;
-        case 5: obj["r"] = SizeT64{9}; M(obj); Y(obj); obj.Remove("r"); exp = "{" + m + "}"; break;
-        case 6: Y(obj); M(obj); obj["r"] = SizeT64{9}; obj.Remove("r"); exp = "{" + m + "}"; break;
-        case 7: Y(obj); obj["r"] = SizeT64{9}; M(obj); obj["r"].Reset(); exp = "{" + m + "}"; break;
+        case 2: Y(obj); M(obj); obj["zy"] = SizeT64{7}; exp = "{" + m + ",\"zy\":u7}"; break;
+        case 3: M(obj); obj["zy"] = "s"; Y(obj); exp = "{" + m + ",\"zy\":\"s\"}"; break;
+        case 4: obj["zy"][0] = SizeT64{1}; Y(obj); M(obj); exp = "{\"zy\":[u1]," + m + "}"; break;
+        case 5: obj["ry"] = SizeT64{9}; M(obj); Y(obj); obj.Remove("ry"); exp = "{" + m + "}"; break;
+        case 6: Y(obj); M(obj); obj["ry"] = SizeT64{9}; obj.Remove("ry"); exp = "{" + m + "}"; break;
+        case 7: Y(obj); obj["ry"] = SizeT64{9}; M(obj); obj["ry"].Reset(); exp = "{" + m + "}"; break;
         case 8: M(obj); Y(obj); obj.Remove("m"); exp = "{}"; break;
         case 9: Y(obj); exp = "{}"; break;
     }
@@ -101,7 +103,7 @@ static void run_array(const std::vector<int> &elems, vx::Ctx &ctx) {
     const std::string before = ref::dump(arr);
     V                 grouped;
     grouped = SizeT64{99}; // a dirty destination must be replaced
-    const bool ok = arr.GroupBy(grouped, "y");
+    const bool ok = arr.GroupBy(grouped, "ky");
     ctx.acc.count("evals");
     const std::string got = ref::dump(grouped, false);
     if (!ok || got != expected) {
@@ -110,10 +112,19 @@ static void run_array(const std::vector<int> &elems, vx::Ctx &ctx) {
     if (ref::dump(arr) != before) {
         ctx.fail("GroupBy(y) of " + desc, "the source array was modified");
     }
+    {
+        // the same result value handed in again (now a non-empty object): the old groups must not survive
+        const bool ok2 = arr.GroupBy(grouped, "ky");
+        ctx.acc.count("evals");
+        const std::string got2 = ref::dump(grouped, false);
+        if (!ok2 || got2 != expected) {
+            ctx.fail("GroupBy(y) twice into one result, of " + desc, std::string(ok2 ? "" : "returned false; ") + "result " + got2 + ", partition " + expected);
+        }
+    }
     ctx.acc.outcome(vx::hstr(expected));
     // the same partition through <loop group="y">
     {
-        static const char *tpl = "<loop value=\"v\" group=\"y\">{var:v}=<loop set=\"v\" value=\"w\">{var:w[m]},</loop>;</loop>";
+        static const char *tpl = "<loop value=\"v\" group=\"ky\">{var:v}=<loop set=\"v\" value=\"w\">{var:w[m]},</loop>;</loop>";
         StringStream<char> ss;
         Template::Render(tpl, SizeT(strlen(tpl)), arr, ss);
         ctx.acc.count("evals");
